@@ -25,11 +25,13 @@ pub struct FOpts {
     pub total: u32,
     /// pass total_sectors explicitly (else derived from the device length)
     pub explicit_total: bool,
+    /// CHS geometry / drive number overrides (None = library default)
+    pub chs: Option<(u16, u16, u8)>,
 }
 
 impl FOpts {
     pub fn default_for(total: u32) -> Self {
-        FOpts { bps: 512, bpc: None, fats: 2, root_entries: 512, fat: None, label: None, volume_id: 0x1234_5678, media: 0xF8, total, explicit_total: true }
+        FOpts { bps: 512, bpc: None, fats: 2, root_entries: 512, fat: None, label: None, volume_id: 0x1234_5678, media: 0xF8, total, explicit_total: true, chs: None }
     }
     pub fn is_default(&self) -> bool {
         self.bps == 512 && self.bpc.is_none() && self.fats == 2 && self.root_entries == 512 && self.fat.is_none()
@@ -69,6 +71,9 @@ impl FOpts {
         }
         if self.explicit_total {
             o = o.total_sectors(self.total);
+        }
+        if let Some((spt, heads, drive)) = self.chs {
+            o = o.sectors_per_track(spt).heads(heads).drive_num(drive);
         }
         o
     }
@@ -126,6 +131,16 @@ pub fn check_boot(b: &[u8], o: &FOpts) -> Result<Geo, String> {
     }
     if raw.status != 0 {
         return Err("status byte not clean".into());
+    }
+    let (want_spt, want_heads, want_drive) = match o.chs {
+        Some(x) => x,
+        None => (0x20, 0x40, if g.fat_bits == 12 { 0 } else { 0x80 }),
+    };
+    if raw.spt != want_spt || raw.heads != want_heads || raw.drive_num != want_drive {
+        return Err(format!("CHS geometry / drive number {}/{}/{:#x}, requested {}/{}/{:#x}", raw.spt, raw.heads, raw.drive_num, want_spt, want_heads, want_drive));
+    }
+    if raw.hidden != 0 {
+        return Err("hidden sectors not zero".into());
     }
     if g.fat_bits == 32 {
         if g.fsinfo_sector == 0 || g.backup_sector == 0 || g.fsinfo_sector == g.backup_sector {
@@ -461,6 +476,7 @@ fn random_opts(rng: &mut Rng) -> FOpts {
         media: *rng.pick(&[0xF8u8, 0xF0, 0xF9, 0xFF]),
         total,
         explicit_total: !rng.chance(1, 6),
+        chs: if rng.chance(1, 3) { Some((rng.below(65536) as u16, rng.below(65536) as u16, rng.below(256) as u8)) } else { None },
     }
 }
 
@@ -511,6 +527,35 @@ pub fn run(args: &Args, rep: &mut Report) {
                 if thorough || bps == 4096 {
                     judge_real(rep, &o, false, 0);
                 }
+            }
+        }
+    }
+    // a device with more than 2^32-1 sectors and no explicit sector count must be refused, not truncated
+    if (part == "all" || part == "real") && shard == 0 {
+        for (bps, sectors) in [(512u16, (1u64 << 32) + 7), (4096, 1u64 << 32), (512, u64::from(u32::MAX))] {
+            rep.evaluations += 1;
+            let img = Image::new(sectors * u64::from(bps));
+            let dev = MonDev::new(img);
+            dev.set_logging(false, false);
+            let mut d = dev.handle();
+            let r = catch_unwind(AssertUnwindSafe(|| fatfs::format_volume(&mut d, fatfs::FormatVolumeOptions::new().bytes_per_sector(bps))));
+            let too_big = sectors > u64::from(u32::MAX);
+            let what = format!("format_volume on a device of {} sectors of {} bytes without total_sectors", sectors, bps);
+            match r {
+                Err(_) => {
+                    let (cls, full) = take_panic();
+                    rep.viol("C06", &format!("C06|format-panic|{}", cls), "format-panic", &format!("{} panicked: {}", what, full), J::obj().set("argv", J::arr_of_str(vec!["c06"])));
+                }
+                Ok(Ok(())) if too_big => {
+                    rep.viol("C06", "C06|oversized-device-accepted", "oversized-device-accepted", &format!("{} succeeded", what), J::obj().set("argv", J::arr_of_str(vec!["c06"])));
+                }
+                Ok(Err(e)) if classify_err(&e) != EK::InvalidInput => {
+                    rep.viol("C06", "C06|format-error-kind|oversized", "format-error-kind", &format!("{} failed with {:?}", what, classify_err(&e)), J::obj().set("argv", J::arr_of_str(vec!["c06"])));
+                }
+                Ok(Err(_)) if !too_big => {
+                    rep.viol("C06", "C06|default-rejected", "default-rejected", &format!("{} was rejected", what), J::obj().set("argv", J::arr_of_str(vec!["c06"])));
+                }
+                _ => {}
             }
         }
     }
